@@ -181,10 +181,18 @@ type runResult struct {
 	Progs    []*eng.Program
 	Work     string
 	Missing  []string
+	Removed  []string // unexported functions named by the check that no longer exist
 }
 
 func kindAllowed(kinds []string, k string) bool {
 	if len(kinds) == 0 {
+		return true
+	}
+	// obligations other proofs of the same function rest on are never optional: an invariant that is
+	// assumed after the loop head must be established and kept, a callee's postcondition may only be
+	// used where its precondition was shown
+	switch k {
+	case "inv-init", "inv-keep", "callee-pre":
 		return true
 	}
 	for _, x := range kinds {
@@ -291,6 +299,13 @@ func executeSpec(spec *CheckSpec, tier string, overlay map[string][]byte) (*runR
 			}
 		}
 		if found == nil {
+			if unexportedFunc(fs.Name) {
+				// an internal helper that no longer exists (inlined into its callers, merged, renamed):
+				// not a violation in itself - what it did is now verified as part of its callers, whose
+				// own contracts still have to hold
+				rr.Removed = append(rr.Removed, fs.Name)
+				continue
+			}
 			rr.Missing = append(rr.Missing, fs.Name)
 			continue
 		}
@@ -343,6 +358,21 @@ func executeSpec(spec *CheckSpec, tier string, overlay map[string][]byte) (*runR
 	for _, as := range spec.Analyses {
 		if as.Tier == "thorough" && tier != "thorough" {
 			continue
+		}
+		if len(rr.Removed) > 0 {
+			var keep []string
+			for _, f := range as.Functions {
+				gone := false
+				for _, r := range rr.Removed {
+					if r == f {
+						gone = true
+					}
+				}
+				if !gone {
+					keep = append(keep, f)
+				}
+			}
+			as.Functions = keep
 		}
 		ar := eng.RunAnalysis(as, rr.Progs, cs, rr.Funcs, work, timeout)
 		rr.Analyses = append(rr.Analyses, ar)
@@ -429,6 +459,10 @@ func report(spec *CheckSpec, rr *runResult, tier string, seed int, t0 time.Time)
 			}
 		}
 	}
+	for _, m := range rr.Removed {
+		notes = append(notes, "helper "+m+" named by the check no longer exists: its obligations are decided inside its callers")
+		fmt.Printf("NOTE property=%s helper %s no longer exists; its callers are verified with its former body in place\n", id, m)
+	}
 	for _, m := range rr.Missing {
 		violations++
 		path := filepath.Join(replayDir, sanitizeFile(m)+".missing.txt")
@@ -456,7 +490,47 @@ func report(spec *CheckSpec, rr *runResult, tier string, seed int, t0 time.Time)
 			verifiedSet[f.Key] = true
 		}
 	}
+	// contracts relied on at call sites: verified here, verified by another check, or assumed
+	otherVerified := map[string]string{}
+	if evs, _ := filepath.Glob(filepath.Join(verifRoot, "evidence", "*.json")); len(evs) > 0 {
+		for _, evf := range evs {
+			if filepath.Base(evf) == id+".json" {
+				continue
+			}
+			var other struct {
+				Coverage struct {
+					Funcs []string `json:"functions_under_contract"`
+				} `json:"coverage"`
+			}
+			if data, err := os.ReadFile(evf); err == nil && json.Unmarshal(data, &other) == nil {
+				for _, f := range other.Coverage.Funcs {
+					otherVerified[f] = strings.TrimSuffix(filepath.Base(evf), ".json")
+				}
+			}
+		}
+	}
+	var usedHere, usedOther, usedAssumed []string
 	for _, n := range notes {
+		if !strings.HasPrefix(n, "contract used at a call site: ") {
+			continue
+		}
+		k := strings.TrimPrefix(n, "contract used at a call site: ")
+		ct := rr.Contracts.Funcs[k]
+		switch {
+		case verifiedSet[k]:
+			usedHere = append(usedHere, k)
+		case ct != nil && (ct.Flag("trusted") || !strings.HasPrefix(ct.File, "/repo")):
+			usedAssumed = append(usedAssumed, k+" (trusted: "+filepath.Base(ct.File)+")")
+		case otherVerified[k] != "":
+			usedOther = append(usedOther, k+" ("+otherVerified[k]+")")
+		default:
+			usedAssumed = append(usedAssumed, k+" (contract in "+filepath.Base(ct.File)+", verified by no check)")
+		}
+	}
+	for _, n := range notes {
+		if strings.HasPrefix(n, "contract used at a call site: ") {
+			continue
+		}
 		if strings.HasPrefix(n, "uncontracted callee ") {
 			k := strings.SplitN(strings.TrimPrefix(n, "uncontracted callee "), ":", 2)[0]
 			if verifiedSet[k] {
@@ -486,6 +560,9 @@ func report(spec *CheckSpec, rr *runResult, tier string, seed int, t0 time.Time)
 			"undecided_clauses":        spec.Undecided,
 			"analyses":                 analyses,
 			"known_findings_reported":  len(lines) - violations,
+			"callee_contracts_verified_here":     usedHere,
+			"callee_contracts_verified_by_other_checks": usedOther,
+			"callee_contracts_assumed":           usedAssumed,
 		},
 		"assumptions": assumptions,
 		"wall_s":      time.Since(t0).Seconds(),
@@ -595,8 +672,8 @@ func runSelftest(spec *CheckSpec) int {
 			}
 		}
 		for _, f := range rr.Funcs {
-			if f.Unsupported != "" && strings.HasPrefix(f.Key, tc.Expect) {
-				caught = true
+			if f.Unsupported != "" && (strings.HasPrefix(f.Key, tc.Expect) || strings.HasPrefix(tc.Expect, f.Key+"/")) {
+				caught = true // reported as "function can no longer be translated"
 			}
 		}
 		os.RemoveAll(rr.Work)
@@ -663,4 +740,15 @@ func runSelftest(spec *CheckSpec) int {
 		return 2
 	}
 	return 0
+}
+
+// unexportedFunc: the function or method name (last component of the key) starts with a lower-case letter
+// and is not an anonymous function.
+func unexportedFunc(key string) bool {
+	i := strings.LastIndex(key, ".")
+	name := key[i+1:]
+	if name == "" || strings.Contains(name, "$") {
+		return false
+	}
+	return name[0] >= 'a' && name[0] <= 'z'
 }
